@@ -63,14 +63,17 @@ Definition prepare (e : edit) : prepared := prepare_go e [] [].
 
 (* ------------------------------------------------------------------------------------------ *)
 (* the dispatch of apply_incremental_edit *)
-Inductive strategy := StTautology | StUnitClause | StSubDAGReplacement | StRecompile | StUndo.
+Inductive strategy :=
+  StTautology | StUnitClause | StSubDAGReplacement | StRecompile | StUndo
+| StError.   (* the edit is refused, nothing changes (since repair F28) *)
 
 (* what the conditions read besides the edit itself *)
 Record facts := {
   cache_hit : bool;         (* cache.find_and_remove found an entry (see cache_matches) *)
   ig_nvars : Z;             (* IntermediateGraph.number_of_variables *)
   stored_cnf_empty : bool;  (* IntermediateGraph.cnf_clauses.is_empty() *)
-  root_is_node0 : bool;     (* self.root == NodeIndex::new(0) *)
+  root_is_node0 : bool;     (* self.root == NodeIndex::new(0) (read by dispatch_v1 only) *)
+  from_cnf : bool;          (* IntermediateGraph.from_cnf: the d-DNNF was compiled from a CNF file *)
 }.
 
 Inductive decision :=
@@ -82,10 +85,32 @@ Definition max_var (cs : cnf) : Z :=
 
 Definition is_nil {A} (l : list A) : bool := match l with [] => true | _ => false end.
 
-(* the unit path: exactly one added clause, NOTHING to remove (since repair F16; without that
-   condition the removals of a mixed edit were dropped: finding K26, dispatch_v0 below), no new
-   variable, one literal *)
+(* apply_incremental_edit after the repairs F16, F24, F27, F28:
+   - the unit path: exactly one added clause of one literal and NOTHING to remove (F16), over an
+     existing OR A NEW variable (F27: add_unit_clause conjoins the literal - and one optional
+     feature per skipped number - at an And root; before, new-variable unit clauses took the
+     general path: findings K3, K20, K29);
+   - every other edit needs the source clauses: a d-DNNF that was not compiled from a CNF refuses
+     it with Error and changes nothing (F28; before: Tautology / a recompilation of the edit's
+     clauses alone / garbage / panics: K3, K20, K21, K35);
+   - an empty clause list of a CNF-compiled d-DNNF is complete: the edited CNF is compiled as a
+     whole (F24; before: Tautology, K27). *)
 Definition dispatch (f : facts) (op_add op_rmv : cnf) : decision :=
+  if is_nil op_add && is_nil op_rmv then Decided StTautology
+  else if cache_hit f then Decided StUndo
+  else
+    let general :=
+      if negb (from_cnf f) then Decided StError
+      else if stored_cnf_empty f then Decided StRecompile
+      else GraphDependent in
+    match op_add with
+    | [[_]] => if is_nil op_rmv then Decided StUnitClause else general
+    | _ => general
+    end.
+
+(* the dispatch after F16 and BEFORE F24 / F27 / F28 (kept only as the subject of the `_v1`
+   statements: K3, K20, K27, K29) *)
+Definition dispatch_v1 (f : facts) (op_add op_rmv : cnf) : decision :=
   if is_nil op_add && is_nil op_rmv then Decided StTautology
   else if cache_hit f then Decided StUndo
   else
@@ -218,11 +243,17 @@ Definition adjust_intern_cnf_v0 (stored op_add op_rmv : cnf) : cnf :=
   simplify_clauses (retain_clauses_v0 stored op_rmv ++ op_add).
 
 (* The stored clause list after an edit answered Recompile (= the CNF that recompile_everything
-   writes for the compiler): transform_to_cnf_from_starting_cnf adjusts the list first (unless it is
-   empty: early return) and recompile_everything adjusts it AGAIN with the same edit.  Between the
-   two rounds simplify_clauses has unit-propagated the added clauses through the list, so the second
-   round can remove a clause that was SHORTENED to one of the clauses to remove (finding K38). *)
+   writes for the compiler): the edit is applied to the list exactly once (since repair F23:
+   recompile_everything skips adjust_intern_cnf when transform_to_cnf_from_starting_cnf has
+   applied it already). *)
 Definition recompile_stored (stored op_add op_rmv : cnf) : cnf :=
+  adjust_intern_cnf stored op_add op_rmv.
+
+(* BEFORE repair F23: transform_to_cnf_from_starting_cnf adjusted the list (unless it was empty:
+   early return) and recompile_everything adjusted it AGAIN with the same edit.  Between the two
+   rounds simplify_clauses has unit-propagated the added clauses through the list, so the second
+   round could remove a clause that was SHORTENED to one of the clauses to remove (finding K38). *)
+Definition recompile_stored_v0 (stored op_add op_rmv : cnf) : cnf :=
   let s1 := if is_nil stored then stored else adjust_intern_cnf stored op_add op_rmv in
   adjust_intern_cnf s1 op_add op_rmv.
 
@@ -279,6 +310,25 @@ Definition reflatten (C : circuit) : circuit := renumber (post_order C) C.
 Definition unit_edit (C : circuit) (l : Z) : circuit :=
   let rm := removeds C l in
   if last rm false then [] else reflatten (prune rm C).
+
+(* add_unit_clause for a NEW variable (n < |l|; since repair F27) + rebuild.  The root has to be
+   an And node (a fresh And above the old root otherwise); it gets, as further children, one
+   or-triangle (v | -v) for every number n < v < |l| and the literal l.  petgraph lists the edge
+   added last first, so the new children come newest first, before the old ones.  In the vector
+   handed to the re-flattening an old And root is left behind as an unreachable TrueN. *)
+Definition unit_edit_new (C : circuit) (n : nat) (l : Z) : circuit :=
+  let k := length C in
+  let r := last C FalseN in
+  let m := (Z.to_nat (Z.abs l) - S n)%nat in
+  let tri := flat_map (fun i => let v := Z.of_nat (S n + i) in
+                                [Lit v; Lit (- v); Or [k + 3 * i + 1; k + 3 * i]%nat]) (seq 0 m) in
+  let ors := map (fun i => (k + 3 * i + 2)%nat) (seq 0 m) in
+  let newkids := (k + 3 * m)%nat :: rev ors in
+  let '(slot, root') := match r with
+                        | And cs => (TrueN, And (newkids ++ cs))
+                        | _ => (r, And (newkids ++ [(k - 1)%nat]))
+                        end in
+  reflatten (removelast C ++ [slot] ++ tri ++ [Lit l; root']).
 
 (* dead-branch elimination used by the checker to classify circuits that are well-formed up to
    zero-count children of Or nodes (finding K4): drop the dead children, re-flatten *)
